@@ -2,7 +2,7 @@
 import _dbprop, dbcheck
 PROP = "C15"
 def run(tier, seed):
-    return _dbprop.run(PROP, tier, seed, [('ddl', 20, 300)],
+    return _dbprop.run(PROP, tier, seed, [('ddl', 20, 300), ('alter', 6, 60)],
         ['tables are MVCC objects of Db.tla (creator / dropper transaction), so DDL is atomic with its transaction by construction of the specification; name resolution = visibility of the object', 'DROP inside a transaction that rolls back, ALTER and rejected CREATE UNIQUE INDEX are recorded findings (witnesses only)'],
         'CREATE / DROP / name reuse / DML on the same and other tables inside autocommit, committed and rolled-back transactions, reopen every few steps; statements counted', mc=None, nontrivial_key='statements')
 def replay(path, seed):
